@@ -26,3 +26,19 @@ package listener
 //@   ensures err == nil && tildeForm(data) ==> (*ll)[len(*ll)-1] != nil                                                                                           :appended_listener_exists
 //@   ensures err == nil && tildeForm(data) ==> listenerKindMatchesScheme((*ll)[len(*ll)-1])                                                                       :scheme_selects_the_documented_listener
 //@   ensures err != nil ==> spec_sameslice(*ll, old(*ll))                                                                                                          :list_unchanged_on_error
+
+// ---- C16: a new local connection tries the direct forward address first; the upstreams are used only when
+// there is no usable forward address or dialling it failed
+//@ ghost G_snap_direct() bool
+//@ func (l *AbstractListener) ConnectDirectly
+//@   property C16
+//@   safe
+//@   requires conn != nil
+//@   modifies conn.*, G_closes(conn), G_isclosed(conn)
+//@   callsite net.Dial#1 (forward *addr.ProtoAddress) require forward != nil && forward.Host != "" && forward.Scheme != ""     :dials_only_a_complete_forward_address
+//@   ensures old(l.Forward) == nil ==> !result                                                                  :no_forward_address_means_not_handled
+//@ func (l *AbstractListener) HandleConnection
+//@   property C16
+//@   requires conn != nil && l.Config != nil && upstream.UpstreamsInv(l.Upstreams)
+//@   callsite ConnectDirectly#1 (ok bool) assume G_snap_direct() == ok "ghost snapshot: the direct attempt handled the connection"
+//@   callsite Connect#1 () require !G_snap_direct()                                                             :upstreams_only_after_the_direct_attempt_failed
